@@ -11,7 +11,7 @@ DATA = [0, 1, 5, 7, 13, 255, 0x7FFFFFFF, 0x80000000, 0xFFFFFFFF, 0x100000001]
 class C19(Prop):
     id = "C19"
     title = "Cross-thread notifications are never lost or merged; shutdown terminates"
-    lean_modules = ["NV.C19.Props", "NV.C19.PropsExt", "NV.C19.BlockedCounters", "NV.C19.LocksProps", "NV.C19.Global",
+    lean_modules = ["NV.C19.Props", "NV.C19.PropsExt", "NV.C19.BlockedCounters", "NV.C19.LocksProps", "NV.C19.Eventfd", "NV.C19.Global",
                     "NV.C19.Witness",
                     "NV.C19.WitnessPoll", "NV.C19.Negative"]
     theorems = ["NV.C19.model_satisfies_spec", "NV.C19.posts_delivered_exactly_once", "NV.C19.posts_multiset_preserved",
@@ -33,6 +33,9 @@ class C19(Prop):
                 "NV.C19.locked_functions_accepted", "NV.C19.lock_discipline_all_paths",
                 "NV.C19.locked_functions_nontrivial", "NV.C19.chk_sound", "NV.C19.okBody_sound",
                 "NV.C19.mutex_excludes_accesses",
+                # eventfd counter bound as an explicit hypothesis
+                "NV.C19.post_exact_below_overflow", "NV.C19.post_at_overflow_still_queued", "NV.C19.bell_le_steps",
+                "NV.C19.no_doorbell_overflow",
                 "NV.C19.no_writer_left_asleep", "NV.C19.waiting_writer_wakes", "NV.C19.woken_writer_pushes",
                 "NV.C19.drained_queue_releases_a_writer", "NV.C19.drop_oldest_never_blocks",
                 "NV.C19.console_worker_exits_after_stop", "NV.C19.console_worker_hangs_on_block_writer_queue",
